@@ -32,7 +32,8 @@ theorem combine_exact (cfg : Cfg) (ctx : Ctx) (env : Env) (call : String → Mar
     (hact : parseAction action = some act)
     (hrs : combineMatchAndActions cfg ctx action m = some rs)
     (hA : cfg.markAccept ≠ 0) (hP : cfg.markPass ≠ 0) (hD : cfg.markDrop ≠ 0)
-    (hmA : mark &&& cfg.markAccept = 0) (hmP : mark &&& cfg.markPass = 0) (hmD : mark &&& cfg.markDrop = 0) :
+    (hmA : act = .allow → mark &&& cfg.markAccept = 0) (hmP : act = .pass → mark &&& cfg.markPass = 0)
+    (hmD : act = .deny → mark &&& cfg.markDrop = 0) :
     runRules env call pkt (rs ++ rest) mark =
       if clausesMatch env pkt mark m then actionOutcome cfg env call pkt rest mark act
       else runRules env call pkt rest mark := by
@@ -51,7 +52,7 @@ theorem combine_exact (cfg : Cfg) (ctx : Ctx) (env : Env) (call : String → Mar
       · simp [runRules, Rule.matches, hm, hfl, resolveAction, applyMark, Clause.matches, bit_test_set,
           xorb, clausesMatch, actionOutcome]
     · have hm' : m.all (Clause.matches env pkt mark) = false := by simpa [clausesMatch] using hm
-      have hb := bit_test_clear mark cfg.markAccept hmA hA
+      have hb := bit_test_clear mark cfg.markAccept (hmA rfl) hA
       by_cases hfl : (!ctx.untracked && cfg.flowLogs) = true
       · simp [runRules, Rule.matches, hm', hfl, Clause.matches, hb, xorb, clausesMatch]
       · simp [runRules, Rule.matches, hm', hfl, Clause.matches, hb, xorb, clausesMatch]
@@ -64,7 +65,7 @@ theorem combine_exact (cfg : Cfg) (ctx : Ctx) (env : Env) (call : String → Mar
         simp [runRules, Rule.matches, hm, hfl, resolveAction, applyMark, Clause.matches, bit_test_set,
           xorb, clausesMatch, actionOutcome, denyAction, hr]
     · have hm' : m.all (Clause.matches env pkt mark) = false := by simpa [clausesMatch] using hm
-      have hb := bit_test_clear mark cfg.markDrop hmD hD
+      have hb := bit_test_clear mark cfg.markDrop (hmD rfl) hD
       by_cases hfl : (!ctx.untracked && cfg.flowLogs) = true
       · simp [runRules, Rule.matches, hm', hfl, Clause.matches, hb, xorb, clausesMatch]
       · simp [runRules, Rule.matches, hm', hfl, Clause.matches, hb, xorb, clausesMatch]
@@ -79,7 +80,7 @@ theorem combine_exact (cfg : Cfg) (ctx : Ctx) (env : Env) (call : String → Mar
       · simp [runRules, Rule.matches, hm, hfl, resolveAction, applyMark, Clause.matches, bit_test_set,
           xorb, clausesMatch, actionOutcome]
     · have hm' : m.all (Clause.matches env pkt mark) = false := by simpa [clausesMatch] using hm
-      have hb := bit_test_clear mark cfg.markPass hmP hP
+      have hb := bit_test_clear mark cfg.markPass (hmP rfl) hP
       by_cases hfl : (!ctx.untracked && cfg.flowLogs) = true
       · simp [runRules, Rule.matches, hm', hfl, Clause.matches, hb, xorb, clausesMatch]
       · simp [runRules, Rule.matches, hm', hfl, Clause.matches, hb, xorb, clausesMatch]
@@ -1538,7 +1539,8 @@ theorem render_exact_le2 (cfg : Cfg) (ctx : Ctx) (env : Env) (call : String → 
     (hi : env.dp = .ipt ∨ ∀ t c, r.notIcmp ≠ .typeCode t c)
     (hpos : ∀ rc, filterRuleToIPVersion pkt.v6 r = some rc → numPositive rc ≤ 2)
     (hact : parseAction r.action = some act)
-    (hmA : mark &&& cfg.markAccept = 0) (hmP : mark &&& cfg.markPass = 0) (hmD : mark &&& cfg.markDrop = 0) :
+    (hmA : act = .allow → mark &&& cfg.markAccept = 0) (hmP : act = .pass → mark &&& cfg.markPass = 0)
+    (hmD : act = .deny → mark &&& cfg.markDrop = 0) :
     ∃ rs mark', protoRuleToRules cfg ctx setName pkt.v6 r = some rs ∧
       baseOf cfg.markScratch0 cfg.markScratch1 mark' = baseOf cfg.markScratch0 cfg.markScratch1 mark ∧
       runRules env call pkt (rs ++ rest) mark =
@@ -1598,7 +1600,8 @@ theorem render_exact_le2 (cfg : Cfg) (ctx : Ctx) (env : Env) (call : String → 
           intro x hxA hxT hx
           rw [mk_and_other _ _ _ _ _ _ hxA hxT, baseOf_and_other _ _ _ _ hxA hxT, hx]
         rw [combine_exact cfg ctx env call pkt _ act _ rsc rest _ hact' hcomb mo.accNe mo.passNe mo.dropNe
-          (hv _ mo.accA mo.accT hmA) (hv _ mo.passA mo.passT hmP) (hv _ mo.dropA mo.dropT hmD)]
+          (fun h => hv _ mo.accA mo.accT (hmA h)) (fun h => hv _ mo.passA mo.passT (hmP h))
+          (fun h => hv _ mo.dropA mo.dropT (hmD h))]
         obtain ⟨m2, hcalc2, hcl2⟩ := calc_exact env pkt
           (mk cfg.markScratch0 cfg.markScratch1 (baseOf cfg.markScratch0 cfg.markScratch1 mark) pred t) setName _ hs hi'
         have : m2 = m := by rw [hcalc] at hcalc2; exact (Option.some.inj hcalc2).symm
